@@ -105,6 +105,14 @@ func allScenarios() []*scenario {
 			Why: "two-table Addition ‖ compaction of a cancelling range, with one injected I/O fault"},
 		{Name: "F5-fault-reader", Init: "two", Procs: []procSpec{PNoAuto(add("a"), rng(1, 2)), Reader(st("read"), st("reload"), st("read"))}, Preempt: 2, Faults: 1,
 			Why: "reader reloading ‖ add + partial compaction with one injected I/O fault (C05/C16 only)"},
+		{Name: "S19-span-skipname", Init: "one", Cfg: reftable.Config{SkipNameCheck: true}, Procs: []procSpec{
+			PNoAuto(step{Kind: "addspan", Txns: []string{"a"}, I: 2, J: 1}, step{Kind: "addspan", Txns: []string{"a2"}, I: 2, J: 1}),
+			PNoAuto(add("b"))}, Preempt: -1,
+			Why: "as S19-span with name checking disabled: the update-index guard must not depend on the name check"},
+		{Name: "F6-fault-stale-retry", Init: "two", Procs: []procSpec{PNoAuto(add("a"), rng(0, 1)), PNoAuto(add("b"), add("b2"))}, Preempt: 2, Faults: 1,
+			Why: "a stale handle whose refresh fails with an injected I/O error and which then retries: it must still not commit a list built from its stale stack"},
+		{Name: "S9-stale", Init: "two", Procs: []procSpec{PNoAuto(add("log1")), PNoAuto(step{Kind: "compactall", Expiry: exp})}, Preempt: -1,
+			Why: "CompactAll with expiry through a handle that may be stale ‖ Add"},
 		{Name: "S16", Init: "three", Procs: []procSpec{PNoAuto(rng(1, 2)), PNoAuto(add("a"))}, Preempt: -1,
 			Why: "partial-range compaction over a tombstone ‖ Add"},
 	}
@@ -123,11 +131,11 @@ func allScenarios() []*scenario {
 }
 
 var quickSets = map[string][]string{
-	"C04": {"S1-empty", "S1-one", "S2", "S5", "S8", "S14", "S9", "S1-one@s256", "S10", "S18-reject", "S19-span", "S3", "S12", "S16", "S2@s256", "S20", "S21", "S15-crash", "S7-close", "S7-clean", "S7-close-partial", "S17-gc-empty", "S6p", "S16c", "S8-3", "S2-high", "S1-skipname", "S1-empty@s256", "S16c@s256"},
-	"C05": {"S1-one", "S2", "S3", "S4", "S4b", "S16c", "S20", "S21", "S8-3", "S2-high", "F4-fault-addition", "F5-fault-reader", "S5@s256", "S18-reject", "S19-span", "S6p", "S6q-b2", "S7-close-partial", "F1-fault-compact-add", "F2-fault-add-add", "S5", "S7-close", "S7-clean", "S13", "S15-crash", "S16"},
+	"C04": {"S1-empty", "S1-one", "S2", "S5", "S8", "S14", "S9", "S1-one@s256", "S10", "S18-reject", "S19-span", "S3", "S12", "S16", "S2@s256", "S20", "S21", "S15-crash", "S7-close", "S7-clean", "S7-close-partial", "S17-gc-empty", "S6p", "S16c", "S8-3", "S2-high", "S1-skipname", "S1-empty@s256", "S16c@s256", "S19-span-skipname", "F6-fault-stale-retry", "F1-fault-compact-add", "S9-stale", "S7-clean-compact"},
+	"C05": {"S1-one", "S2", "S3", "S4", "S4b", "S16c", "S20", "S21", "S8-3", "S2-high", "F4-fault-addition", "F5-fault-reader", "S5@s256", "S19-span-skipname", "F6-fault-stale-retry", "S9-stale", "S7-clean-compact", "S18-reject", "S19-span", "S6p", "S6q-b2", "S7-close-partial", "F1-fault-compact-add", "F2-fault-add-add", "S5", "S7-close", "S7-clean", "S13", "S15-crash", "S16"},
 	"C08": {"S1-one", "S2", "S4b", "S5", "S5b", "S8", "S7-clean", "S20", "S21", "S8-3", "F4-fault-addition", "S4b@s256", "F1-fault-compact-add", "F2-fault-add-add", "F3-fault-range-range"},
 	"C10": {"S6", "S6p", "S6o", "S6q-b2", "S1-one", "S12", "S6-3", "S6p@s256", "S6r", "S16c", "S16c@s256", "S2-high"},
-	"C16": {"S1-empty", "S1-one", "S2", "S4", "S4b", "S16c", "S20", "S21", "S8-3", "S2-high", "S1-skipname", "F4-fault-addition", "F5-fault-reader", "S2@s256", "S18-reject", "S7-close-partial", "F1-fault-compact-add", "F2-fault-add-add", "S5", "S7-close", "S7-clean", "S7-clean-compact", "S8", "S10", "S17-gc-empty"},
+	"C16": {"S1-empty", "S1-one", "S2", "S4", "S4b", "S16c", "S20", "S21", "S8-3", "S2-high", "S1-skipname", "F6-fault-stale-retry", "S9-stale", "F4-fault-addition", "F5-fault-reader", "S2@s256", "S18-reject", "S7-close-partial", "F1-fault-compact-add", "F2-fault-add-add", "S5", "S7-close", "S7-clean", "S7-clean-compact", "S8", "S10", "S17-gc-empty"},
 }
 
 func catalogue(prop, tier string) []*scenario {
@@ -135,8 +143,8 @@ func catalogue(prop, tier string) []*scenario {
 	if tier == "thorough" {
 		var out []*scenario
 		for _, s := range all {
-			if (prop == "C04" || prop == "C10") && s.Faults > 0 {
-				continue // C04 is stated 'in the absence of I/O faults'; C10's reader may legitimately see its own calls fail
+			if prop == "C10" && s.Faults > 0 {
+				continue // C10's reader may legitimately see its own calls fail
 			}
 			if prop == "C04" && s.MixedHash {
 				// the refinement monitor models one hash size; S13's oracle is C05's list-integrity monitor
